@@ -38,7 +38,7 @@ theorem enterScript_shiftA (p : Prog) (δ gas : Nat)
   · simp only [h1, h2, if_true, if_false]; rfl
   by_cases h3 : s.frames.length + 2 > s.frameCap
   · simp only [h1, h2, h3, if_true, if_false]
-    simp only [failAt, mapRes, shiftErr, shiftS, List.map_append, List.map_cons, List.map_nil, shiftFrame_mk]
+    simp only [mapRes, shiftErr, List.map_append, List.map_cons, List.map_nil, shiftFrame_mk]
   simp only [h1, h2, h3, if_false]
   have key := ih (.loop pos) { s with frames := s.frames ++ [⟨pos, p.bytecode.size - 1, s.stack.count - ar, c⟩, ⟨pos, p.bytecode.size - 1, s.stack.count - ar, c⟩] }
   simp only [shiftTask] at key
@@ -51,9 +51,11 @@ theorem enterScript_shiftA (p : Prog) (δ gas : Nat)
     simp only [shiftS, List.map_append, List.map_cons, List.map_nil, shiftFrame_mk]
   subst hr'
   cases r with
-  | error e => rfl
+  | error e =>
+    simp only [mapRes, shiftS_frames, ← List.map_take]
+    rfl
   | ok v =>
-    simp only [mapRes, shiftS_stack, pop_shiftStack, shiftS_frames, ← List.map_dropLast, Option.map_some]
+    simp only [mapRes, shiftS_stack, pop_shiftStack, shiftS_frames, ← List.map_take, Option.map_some]
     rfl
 
 /-- **theorem 1, relative to `StepSimA` and `CallNativeSimA`** -/
